@@ -275,6 +275,22 @@ pub fn pt_sample<S: Strategy>(seed: u64, strategy: &S) -> S::Value {
 }
 
 /// Run `f(shard_index)` on `shards` threads with big stacks; collect violations.
+thread_local! {
+    static CRUMB_PATH: std::cell::RefCell<Option<String>> = const { std::cell::RefCell::new(None) };
+}
+
+/// Record the case about to be executed (a replay payload) in this shard's breadcrumb file, so
+/// that the supervising process can name the case if the checked code kills the process
+/// (stack overflow, abort). A no-op unless the supervisor set QV_CRUMBS.
+pub fn crumb(property: &str, payload: impl FnOnce() -> J) {
+    CRUMB_PATH.with(|p| {
+        if let Some(path) = p.borrow().as_ref() {
+            let text = json!({"property": property, "replay": payload()}).to_string();
+            let _ = std::fs::write(path, text);
+        }
+    });
+}
+
 pub fn run_sharded<F>(shards: usize, f: F) -> Vec<Violation>
 where
     F: Fn(usize) -> Vec<Violation> + Sync,
@@ -288,6 +304,9 @@ where
                 .name(format!("shard-{shard}"))
                 .stack_size(256 * 1024 * 1024)
                 .spawn_scoped(s, move || {
+                    if let Ok(dir) = std::env::var("QV_CRUMBS") {
+                        CRUMB_PATH.with(|p| *p.borrow_mut() = Some(format!("{dir}/shard-{shard}.json")));
+                    }
                     let v = f(shard);
                     out.lock().unwrap().extend(v);
                 })
